@@ -62,34 +62,11 @@ Section Proj.
 
   Transparent apply_act.
 
-  Definition body_f (body:list stmt) (x:X) : X := fold_left (fun x st => f (AEff (stmt_eff st)) x) body x.
+
+  Definition body_f (body:list bitem) (x:X) : X := fold_left (fun x st => f (AEff (stmt_eff st)) x) (body_stmts body) x.
   Definition vops_f (vs:list vop) (x:X) : X := fold_left (fun x v => f (AVop v) x) vs x.
   Definition step_f (sp:step) (x:X) : X := vops_f (s_ver sp) (body_f (s_body sp) x).
   Definition steps_f (steps:list step) (x:X) : X := fold_left (fun x sp => step_f sp x) steps x.
-
-  Definition body_raises (body:list stmt) (fail:option nat) : bool :=
-    match fail with Some j => Nat.leb j (length body) | None => false end.
-
-  Lemma run_body_spec body : forall fail s, G s -> Q s ->
-    let '(s', r) := run_body k body fail s in
-    r = body_raises body fail /\ pC s' = pC s /\ (r = false -> pV s' = body_f body (pV s)) /\
-    G s' /\ Q s' /\ (s_sa s = true -> s_sa s' = true) /\ s_al s' = s_al s.
-  Proof.
-    induction body as [|x body IH]; intros fail s HG HQ.
-    - destruct fail as [[|j]|]; simpl; repeat split; auto; discriminate.
-    - destruct fail as [[|j]|].
-      + simpl. repeat split; auto; discriminate.
-      + cbn [run_body option_map pred].
-        destruct (exec_ddl_like (stmt_isddl x) (AEff (stmt_eff x)) s I HG HQ) as (E1 & E2 & E3 & E4 & E5 & E6).
-        specialize (IH (Some j) _ E3 E4). destruct (run_body k body (Some j) _) as [s' r].
-        destruct IH as (I1 & I2 & I3 & I4 & I5 & I6 & I7). simpl.
-        repeat split; auto; try congruence. intros Hr. rewrite (I3 Hr), E2. reflexivity.
-      + cbn [run_body option_map].
-        destruct (exec_ddl_like (stmt_isddl x) (AEff (stmt_eff x)) s I HG HQ) as (E1 & E2 & E3 & E4 & E5 & E6).
-        specialize (IH None _ E3 E4). destruct (run_body k body None _) as [s' r].
-        destruct IH as (I1 & I2 & I3 & I4 & I5 & I6 & I7). simpl.
-        repeat split; auto; try congruence. intros Hr. rewrite (I3 Hr), E2. reflexivity.
-  Qed.
 
   Lemma run_vops_spec vs : forall s, G s ->
     pC (run_vops k vs s) = pC s /\ pV (run_vops k vs s) = vops_f vs (pV s) /\ G (run_vops k vs s) /\
@@ -100,143 +77,6 @@ Section Proj.
     - destruct (exec_vop v s HG) as (E1 & E2 & E3 & E4 & E5).
       destruct (IH _ E3) as (I1 & I2 & I3 & I4 & I5).
       repeat split; auto; try congruence.
-  Qed.
-
-  Definition step_raises (sp:step) (fail:option fpos) : bool :=
-    match fail with Some p => valid_fpos sp p | None => false end.
-
-  (* body + bookkeeping + callback, without the enclosing context manager *)
-  Definition inner (sp:step) (fail:option fpos) (s:st) : st * bool :=
-    let '(s2, r2) := run_body k (s_body sp) (match fail with Some (FBody j) => Some j | _ => None end) s in
-    if r2 then (s2, true)
-    else (run_vops k (s_ver sp) s2, match fail with Some FCallback => true | _ => false end).
-
-  Lemma inner_spec sp fail s : G s -> Q s ->
-    let '(s', r) := inner sp fail s in
-    r = step_raises sp fail /\ pC s' = pC s /\ (r = false -> pV s' = step_f sp (pV s)) /\ G s' /\
-    (s_sa s = true -> s_sa s' = true) /\ s_al s' = s_al s.
-  Proof.
-    intros HG HQ. unfold inner.
-    pose proof (run_body_spec (s_body sp) (match fail with Some (FBody j) => Some j | _ => None end) s HG HQ) as B.
-    destruct (run_body k (s_body sp) _ s) as [s2 r2]. destruct B as (B1 & B2 & B3 & B4 & B5 & B6 & B7).
-    destruct r2.
-    - repeat split; auto; try discriminate. destruct fail as [[j|]|]; simpl in *; auto; discriminate.
-    - destruct (run_vops_spec (s_ver sp) s2 B4) as (V1 & V2 & V3 & V4 & V5).
-      repeat split; auto; try congruence.
-      + destruct fail as [[j|]|]; simpl in *; auto.
-      + intros _. unfold step_f. rewrite V2, B3; auto.
-  Qed.
-
-  Lemma run_step_inner c sp fail s :
-    run_step k c sp fail s =
-    let '(b, s1) := bt_enter k c true s in let '(s3, r3) := inner sp fail s1 in (bt_exit b r3 s3, r3).
-  Proof. unfold run_step, inner. destruct (bt_enter k c true s) as [b s1].
-    destruct (run_body k (s_body sp) _ s1) as [s2 r2]. destruct r2; reflexivity. Qed.
-
-  (* a step under nullcontext() *)
-  Lemma step_null c sp fail s : begin_transaction c (s_al s) true = BtNull -> G s -> Q s ->
-    let '(s', r) := run_step k c sp fail s in
-    r = step_raises sp fail /\ pC s' = pC s /\ (r = false -> pV s' = step_f sp (pV s)) /\ G s' /\
-    (s_sa s = true -> s_sa s' = true) /\ s_al s' = s_al s.
-  Proof.
-    intros Hb HG HQ. rewrite run_step_inner. unfold bt_enter. rewrite Hb.
-    pose proof (inner_spec sp fail s HG HQ) as H. destruct (inner sp fail s) as [s3 r3]. simpl. exact H.
-  Qed.
-
-  (* a step under a _ProxyTransaction *)
-  Lemma step_proxy c sp fail s : begin_transaction c (s_al s) true = BtProxy -> G s -> Q s ->
-    let '(s', r) := run_step k c sp fail s in
-    r = step_raises sp fail /\ s_sa s' = false /\ s_al s' = false /\ pC s' = pV s' /\
-    pC s' = (if r then pC s else step_f sp (pV s)) /\ pending (s_db s') = None.
-  Proof.
-    intros Hb HG HQ. rewrite run_step_inner. unfold bt_enter. rewrite Hb.
-    set (s1 := mkSt (s_db (sa_autobegin k s)) true true).
-    assert (G1 : G s1).
-    { unfold G, s1, sa_autobegin in *. simpl. intros Ek _. rewrite Ek. destruct s as [[C [p|]] sa al]; simpl in *.
-      - destruct sa; simpl; intros H; discriminate.
-      - destruct sa; simpl; [apply HG; auto|]. intros H; discriminate. }
-    assert (E1 : pC s1 = pC s /\ pV s1 = pV s).
-    { unfold pC, pV, s1, sa_autobegin. destruct s as [[C [p|]] sa al]; simpl;
-        destruct kind_cases as [E|[E|E]]; rewrite E; destruct sa; simpl; auto. }
-    assert (Q1 : Q s1). { unfold Q in *. destruct E1 as [-> ->]. auto. }
-    pose proof (inner_spec sp fail s1 G1 Q1) as H. destruct (inner sp fail s1) as [s3 r3].
-    destruct H as (H1 & H2 & H3 & H4 & H5 & H6). destruct E1 as [E1 E2].
-    unfold bt_exit. replace (s_al s3) with true by (rewrite H6; reflexivity).
-    destruct r3; unfold pC, pV, sa_rollback, sa_commit, db_rollback, db_commit in *; simpl;
-      repeat split; auto; try congruence.
-    rewrite <- E2. apply H3; auto.
-  Qed.
-
-  Definition next_fail (fail:option (nat*fpos)) : option (nat*fpos) :=
-    match fail with Some (S n, p) => Some (n, p) | _ => None end.
-  Definition here_fail (fail:option (nat*fpos)) : option fpos :=
-    match fail with Some (O, p) => Some p | _ => None end.
-
-  Lemma fidx_cons sp r fail :
-    fidx (sp :: r) fail = if step_raises sp (here_fail fail) then Some O else option_map S (fidx r (next_fail fail)).
-  Proof. destruct fail as [[[|n] p]|]; simpl; auto.
-    - destruct (valid_fpos sp p); auto. destruct r; reflexivity.
-    - destruct r; reflexivity. Qed.
-
-  (* all steps under nullcontext(): one transaction, opened by somebody else, encloses the run *)
-  Lemma steps_null c steps : (forall h, begin_transaction c h true = BtNull) -> k <> ImplicitCommitDDL ->
-    forall fail s, G s ->
-    let '(s', r) := run_steps k c steps fail s in
-    (r = true <-> fidx steps fail <> None) /\ pC s' = pC s /\ (r = false -> pV s' = steps_f steps (pV s)) /\ G s' /\
-    (s_sa s = true -> s_sa s' = true) /\ s_al s' = s_al s.
-  Proof.
-    intros Hb Hk. induction steps as [|sp steps IH]; intros fail s HG.
-    - simpl. repeat split; auto; try discriminate; try (intros H; contradiction H; auto; fail).
-    - cbn [run_steps]. fold (here_fail fail). fold (next_fail fail).
-      assert (HQ : Q s) by (intros E; congruence).
-      pose proof (step_null c sp (here_fail fail) s (Hb _) HG HQ) as S.
-      destruct (run_step k c sp (here_fail fail) s) as [s1 r1]. destruct S as (S1 & S2 & S3 & S4 & S5 & S6).
-      rewrite fidx_cons, <- S1. destruct r1.
-      + repeat split; auto; try discriminate.
-      + specialize (IH (next_fail fail) s1 S4). destruct (run_steps k c steps (next_fail fail) s1) as [s' r].
-        destruct IH as (I1 & I2 & I3 & I4 & I5 & I6). repeat split; auto; try congruence.
-        * intros Hr. apply I1 in Hr. destruct (fidx steps (next_fail fail)); simpl; congruence.
-        * intros Hn. apply I1. destruct (fidx steps (next_fail fail)); simpl in *; congruence.
-        * intros Hr. simpl. rewrite (I3 Hr), S3; auto.
-  Qed.
-
-  Definition count_done (steps:list step) (fail:option (nat*fpos)) : nat :=
-    match fidx steps fail with Some j => j | None => length steps end.
-
-  (* every step under its own _ProxyTransaction *)
-  Lemma steps_proxy c steps : begin_transaction c false true = BtProxy ->
-    forall fail s, G s -> Q s -> s_al s = false ->
-    let '(s', r) := run_steps k c steps fail s in
-    (r = true <-> fidx steps fail <> None) /\ s_al s' = false /\
-    match count_done steps fail with
-    | O => pC s' = pC s /\ (steps <> [] -> pending (s_db s') = None) /\ (steps = [] -> s' = s)
-    | S _ => pC s' = steps_f (firstn (count_done steps fail) steps) (pV s) /\ pending (s_db s') = None
-    end.
-  Proof.
-    intros Hb. induction steps as [|sp steps IH]; intros fail s HG HQ Hal.
-    - simpl. unfold count_done. simpl. repeat split; auto; try discriminate; try (intros H; contradiction H; auto; fail).
-    - cbn [run_steps]. fold (here_fail fail). fold (next_fail fail).
-      assert (Hb' : begin_transaction c (s_al s) true = BtProxy) by (rewrite Hal; auto).
-      pose proof (step_proxy c sp (here_fail fail) s Hb' HG HQ) as S.
-      destruct (run_step k c sp (here_fail fail) s) as [s1 r1]. destruct S as (S1 & S2 & S3 & S4 & S5 & S6).
-      unfold count_done. rewrite fidx_cons, <- S1. destruct r1.
-      + repeat split; auto; try discriminate.
-      + assert (G1 : G s1) by (intros _ E; congruence).
-        assert (Q1 : Q s1) by (intros _; auto).
-        specialize (IH (next_fail fail) s1 G1 Q1 S3). destruct (run_steps k c steps (next_fail fail) s1) as [s' r].
-        destruct IH as (I1 & I2 & I3). unfold count_done in I3.
-        assert (V1 : pV s1 = step_f sp (pV s)) by (rewrite <- S4; auto).
-        destruct (fidx steps (next_fail fail)) as [j|] eqn:Ef; simpl.
-        * split; [|split; auto]. { split; intros; [discriminate|apply I1; discriminate]. }
-          destruct j as [|j]; simpl in I3 |- *.
-          -- destruct I3 as (I3 & I4 & I5). split; [rewrite I3, S5; reflexivity|].
-             destruct steps; [discriminate|apply I4; discriminate].
-          -- destruct I3 as [I3 I4]. rewrite V1 in I3. split; auto.
-        * split; [|split; auto]. { split; intros H; [apply I1 in H; exact H|contradiction H; reflexivity]. }
-          destruct steps as [|sp2 steps]; simpl in I3 |- *.
-          -- destruct I3 as (I3 & _ & I5). split; [rewrite I3, S5; reflexivity|].
-             rewrite (I5 eq_refl). auto.
-          -- destruct I3 as [I3 I4]. rewrite V1 in I3. split; auto.
   Qed.
 
   (* ---------------- run_migrations: get_current_heads + _ensure_version_table, then the steps *)
@@ -250,12 +90,175 @@ Section Proj.
     destruct kind_cases as [E|[E|E]]; rewrite E; destruct sa; simpl; repeat split; auto; try discriminate;
     intros; try (apply HG; auto). Qed.
 
+
+  (* ---------------- the effect of bodies, steps and step lists on the pair (pC, pV), abstractly *)
+  Fixpoint autos_cv (xs:list aitem) (v:X) : X * bool :=
+    match xs with
+    | [] => (v, false)
+    | ARaise :: _ => (v, true)
+    | AStmt x :: r => autos_cv r (f (AEff (stmt_eff x)) v)
+    end.
+  Fixpoint items_cv (ext:bool) (items:list bitem) (c v:X) : X * X * bool :=
+    match items with
+    | [] => (c, v, false)
+    | BRaise :: _ => (c, v, true)
+    | BStmt x :: r => items_cv ext r c (f (AEff (stmt_eff x)) v)
+    | BAuto xs :: r => if ext then (c, v, true)
+                       else let '(v', rr) := autos_cv xs v in
+                            if rr then (v', v', true) else items_cv ext r v' v'
+    end.
+  Definition step_cv (ext:bool) (sp:step) (c v:X) : X * X * bool :=
+    let '(c1, v1, r2) := items_cv ext (s_body sp) c v in
+    if r2 then (c1, v1, true) else (c1, vops_f (s_ver sp) v1, s_cb_raises sp).
+  Fixpoint null_cv (ext:bool) (steps:list step) (c v:X) : X * X * bool :=
+    match steps with
+    | [] => (c, v, false)
+    | sp :: r => let '(c1, v1, r1) := step_cv ext sp c v in
+                 if r1 then (c1, v1, true) else null_cv ext r c1 v1
+    end.
+  Fixpoint proxy_cv (steps:list step) (c v:X) : X * X * bool :=
+    match steps with
+    | [] => (c, v, false)
+    | sp :: r => let '(c1, v1, r1) := step_cv false sp c v in
+                 if r1 then (c1, c1, true) else proxy_cv r v1 v1
+    end.
+
+  Lemma exec_auto_pV a s : pV (sa_exec_auto a s) = f a (pV s).
+  Proof. unfold pV. exact (Hpi a (view (s_db s))). Qed.
+
+  Lemma run_autos_spec xs : forall s, pending (s_db s) = None ->
+    let '(s', r) := run_autos xs s in
+    (pV s', r) = autos_cv xs (pV s) /\ pending (s_db s') = None /\ s_sa s' = s_sa s /\ s_al s' = s_al s.
+  Proof.
+    induction xs as [|[x|] xs IH]; intros s Hp; simpl; auto.
+    specialize (IH (sa_exec_auto (AEff (stmt_eff x)) s) eq_refl).
+    destruct (run_autos xs (sa_exec_auto (AEff (stmt_eff x)) s)) as [s' r].
+    destruct IH as (I1 & I2 & I3 & I4). repeat split; auto.
+    rewrite I1, exec_auto_pV. reflexivity.
+  Qed.
+
+  Lemma block_spec xs s : G s -> s_sa s = true ->
+    let '(s', r) := autocommit_block k xs s in
+    (if s_al s
+     then (let '(v', rr) := autos_cv xs (pV s) in pC s' = v' /\ pV s' = v' /\ r = rr)
+     else (s' = s /\ r = true)) /\
+    G s' /\ s_sa s' = true /\ s_al s' = s_al s.
+  Proof.
+    intros HG Hsa. unfold autocommit_block. rewrite Hsa. destruct (s_al s) eqn:Hal; simpl.
+    2:{ repeat split; auto. }
+    set (s2 := mkSt (db_commit (s_db s)) true false).
+    pose proof (run_autos_spec xs s2 eq_refl) as R. destruct (run_autos xs s2) as [s3 r].
+    destruct R as (R1 & R2 & R3 & R4).
+    assert (V2 : pV s2 = pV s). { unfold pV, s2, db_commit, view. simpl. reflexivity. }
+    rewrite V2 in R1. destruct (autos_cv xs (pV s)) as [v' rr]. injection R1 as R1 Rr.
+    set (s4 := mkSt (s_db s3) false (s_al s3)).
+    assert (G4 : G s4) by (intros _ E; discriminate).
+    destruct (autobegin_spec s4 G4) as (A1 & A2 & A3 & A4 & A5).
+    assert (E3 : committed (s_db s3) = view (s_db s3)). { unfold view. rewrite R2. reflexivity. }
+    split; [|split; [|split]]; auto.
+    unfold pC, pV in *. simpl in A1, A2 |- *. rewrite A1, A2, E3. auto.
+  Qed.
+
+  Lemma run_items_spec items : forall s, G s -> Q s -> s_sa s = true ->
+    let '(s', r) := run_items k items s in
+    (pC s', pV s', r) = items_cv (negb (s_al s)) items (pC s) (pV s) /\
+    G s' /\ Q s' /\ s_sa s' = true /\ s_al s' = s_al s.
+  Proof.
+    induction items as [|[x|xs|] items IH]; intros s HG HQ Hsa; simpl; auto.
+    - destruct (exec_ddl_like (stmt_isddl x) (AEff (stmt_eff x)) s I HG HQ) as (E1 & E2 & E3 & E4 & E5 & E6).
+      specialize (IH _ E3 E4 E5). destruct (run_items k items _) as [s' r].
+      destruct IH as (I1 & I2 & I3 & I4 & I5). rewrite E1, E2, E6 in I1. repeat split; auto; congruence.
+    - pose proof (block_spec xs s HG Hsa) as B. destruct (autocommit_block k xs s) as [s1 r1].
+      destruct B as (B1 & B2 & B3 & B4). destruct (s_al s) eqn:Hal; simpl.
+      + destruct (autos_cv xs (pV s)) as [v' rr]. destruct B1 as (B1 & B1' & ->). destruct rr.
+        * repeat split; auto; try congruence; try (intros _; congruence).
+        * assert (Q1 : Q s1) by (intros _; congruence).
+          specialize (IH s1 B2 Q1 B3). destruct (run_items k items s1) as [s' r].
+          destruct IH as (I1 & I2 & I3 & I4 & I5). rewrite B1, B1', B4 in I1. simpl in I1.
+          repeat split; auto; congruence.
+      + destruct B1 as [-> ->]. repeat split; auto.
+  Qed.
+
+  Lemma inner_spec sp s : G s -> Q s -> s_sa s = true ->
+    let '(s2, r2) := run_items k (s_body sp) s in
+    let '(s3, r3) := if r2 then (s2, true) else (run_vops k (s_ver sp) s2, s_cb_raises sp) in
+    (pC s3, pV s3, r3) = step_cv (negb (s_al s)) sp (pC s) (pV s) /\ G s3 /\ s_sa s3 = true /\ s_al s3 = s_al s.
+  Proof.
+    intros HG HQ Hsa. pose proof (run_items_spec (s_body sp) s HG HQ Hsa) as B.
+    destruct (run_items k (s_body sp) s) as [s2 r2]. destruct B as (B1 & B2 & B3 & B4 & B5).
+    unfold step_cv. destruct (items_cv (negb (s_al s)) (s_body sp) (pC s) (pV s)) as [[c1 v1] rr].
+    injection B1 as B1 B1' ->. destruct rr.
+    - repeat split; auto; congruence.
+    - destruct (run_vops_spec (s_ver sp) s2 B2) as (V1 & V2 & V3 & V4 & V5).
+      repeat split; auto; congruence.
+  Qed.
+
+  (* a step under nullcontext() *)
+  Lemma step_null c sp s : begin_transaction c (s_al s) true = BtNull -> G s -> Q s -> s_sa s = true ->
+    let '(s', r) := run_step k c sp s in
+    (pC s', pV s', r) = step_cv (negb (s_al s)) sp (pC s) (pV s) /\ G s' /\ s_sa s' = true /\ s_al s' = s_al s.
+  Proof.
+    intros Hb HG HQ Hsa. unfold run_step, bt_enter. rewrite Hb.
+    pose proof (inner_spec sp s HG HQ Hsa) as H. destruct (run_items k (s_body sp) s) as [s2 r2].
+    destruct (if r2 then (s2, true) else (run_vops k (s_ver sp) s2, s_cb_raises sp)) as [s3 r3]. simpl. exact H.
+  Qed.
+
+  (* a step under a _ProxyTransaction *)
+  Lemma step_proxy c sp s : begin_transaction c (s_al s) true = BtProxy -> G s -> Q s -> s_al s = false ->
+    let '(s', r) := run_step k c sp s in
+    let '(c1, v1, r1) := step_cv false sp (pC s) (pV s) in
+    r = r1 /\ pC s' = (if r1 then c1 else v1) /\ pV s' = pC s' /\ s_sa s' = false /\ s_al s' = false.
+  Proof.
+    intros Hb HG HQ Hal. unfold run_step, bt_enter. rewrite Hb.
+    set (s1 := mkSt (s_db (sa_autobegin k s)) true true).
+    destruct (autobegin_spec s HG) as (A1 & A2 & A3 & A4 & A5).
+    assert (G1 : G s1). { intros Ek _. unfold s1. simpl. apply (A3 Ek A4). }
+    assert (E1 : pC s1 = pC s /\ pV s1 = pV s). { unfold pC, pV, s1. simpl. rewrite A1, A2. auto. }
+    assert (Q1 : Q s1). { unfold Q in *. destruct E1 as [-> ->]. auto. }
+    pose proof (inner_spec sp s1 G1 Q1 eq_refl) as H. destruct (run_items k (s_body sp) s1) as [s2 r2].
+    destruct (if r2 then (s2, true) else (run_vops k (s_ver sp) s2, s_cb_raises sp)) as [s3 r3].
+    destruct H as (H1 & H2 & H3 & H4). destruct E1 as [E1 E2]. rewrite E1, E2 in H1. simpl in H1.
+    destruct (step_cv false sp (pC s) (pV s)) as [[c1 v1] r1]. injection H1 as H1 H1' ->.
+    unfold bt_exit. replace (s_al s3) with true by (rewrite H4; reflexivity).
+    destruct r1; unfold pC, pV, sa_rollback, sa_commit, db_rollback, db_commit, view in *; simpl; repeat split; auto.
+  Qed.
+
+  Lemma steps_null c steps : (forall h, begin_transaction c h true = BtNull) -> k <> ImplicitCommitDDL ->
+    forall s, G s -> s_sa s = true ->
+    let '(s', r) := run_steps k c steps s in
+    (pC s', pV s', r) = null_cv (negb (s_al s)) steps (pC s) (pV s) /\ G s' /\ s_sa s' = true /\ s_al s' = s_al s.
+  Proof.
+    intros Hb Hk. induction steps as [|sp steps IH]; intros s HG Hsa; simpl; auto.
+    assert (HQ : Q s) by (intros E; congruence).
+    pose proof (step_null c sp s (Hb _) HG HQ Hsa) as S. destruct (run_step k c sp s) as [s1 r1].
+    destruct S as (S1 & S2 & S3 & S4). destruct (step_cv (negb (s_al s)) sp (pC s) (pV s)) as [[c1 v1] rr].
+    injection S1 as S1 S1' ->. destruct rr.
+    - repeat split; auto; congruence.
+    - specialize (IH s1 S2 S3). destruct (run_steps k c steps s1) as [s' r]. destruct IH as (I1 & I2 & I3 & I4).
+      rewrite S1, S1', S4 in I1. repeat split; auto; congruence.
+  Qed.
+
+  Lemma steps_proxy c steps : begin_transaction c false true = BtProxy ->
+    forall s, G s -> Q s -> s_al s = false ->
+    let '(s', r) := run_steps k c steps s in
+    (pC s', pV s', r) = proxy_cv steps (pC s) (pV s).
+  Proof.
+    intros Hb. induction steps as [|sp steps IH]; intros s HG HQ Hal; simpl; auto.
+    assert (Hb' : begin_transaction c (s_al s) true = BtProxy) by (rewrite Hal; auto).
+    pose proof (step_proxy c sp s Hb' HG HQ Hal) as S. destruct (run_step k c sp s) as [s1 r1].
+    destruct (step_cv false sp (pC s) (pV s)) as [[c1 v1] rr]. destruct S as (-> & S2 & S3 & S4 & S5). destruct rr.
+    - rewrite S3, S2. reflexivity.
+    - assert (G1 : G s1) by (intros _ E; congruence).
+      assert (Q1 : Q s1) by (intros _; auto).
+      specialize (IH s1 G1 Q1 S5). destruct (run_steps k c steps s1) as [s' r]. rewrite S3, S2 in IH. exact IH.
+  Qed.
+
   Definition prelude (s:st) : st :=
     let s1 := sa_autobegin k s in
     let v := view (s_db s1) in
     match (if vt v then vrows v else []) with [] => ensure_version_table k s1 | _ => s1 end.
 
-  Lemma run_migrations_prelude c steps fail s : run_migrations k c steps fail s = run_steps k c steps fail (prelude s).
+  Lemma run_migrations_prelude c steps s : run_migrations k c steps s = run_steps k c steps (prelude s).
   Proof. reflexivity. Qed.
 
   Lemma prelude_spec s : G s -> Q s ->
@@ -277,45 +280,41 @@ Section Proj.
       rewrite E2, <- Hpi. reflexivity.
   Qed.
 
+
   (* ---------------- the whole command *)
-  Definition expected (i:input) : X :=
-    let d0 := i_db0 i in
+  Definition abs_run (i:input) : X * bool :=
+    let c0 := pi (i_db0 i) in
+    let v0 := pi (set_vt (i_db0 i)) in
     if one_txn i
-    then (if is_some (fail_index i) then pi d0 else steps_f (i_steps i) (pi (set_vt d0)))
-    else match committed_count i with
-         | O => pi d0
-         | S _ => steps_f (firstn (committed_count i) (i_steps i)) (pi (set_vt d0))
-         end.
+    then (let '(c, v, r) := null_cv (i_external i) (i_steps i) c0 v0 in (if r then c else v, r))
+    else (let '(c, v, r) := proxy_cv (i_steps i) c0 v0 in (c, r)).
 
   Lemma is_some_iff {A} (o:option A) : is_some o = true <-> o <> None.
   Proof. destruct o; simpl; split; congruence. Qed.
 
-  Lemma iff_is_some {A} (r:bool) (o:option A) : (r = true <-> o <> None) -> r = is_some o.
-  Proof. destruct r, o; simpl; intros [H1 H2]; auto; [exfalso; apply (H1 eq_refl); auto|apply H2; discriminate]. Qed.
-
   Lemma txn_run_proj i : i_kind i = k -> consistent i = true ->
-    (o_raised (txn_run i) = true <-> fail_index i <> None) /\ pi (o_db (txn_run i)) = expected i.
+    (pi (o_db (txn_run i)), o_raised (txn_run i)) = abs_run i.
   Proof.
-    intros Hk Hc. unfold txn_run, expected, committed_count, fail_index, one_txn, consistent in *. unfold one_txn in *. cbv zeta. rewrite Hk in *.
+    intros Hk Hc. unfold txn_run, abs_run, one_txn, consistent in *. unfold one_txn in *. cbv zeta. rewrite Hk in *.
     set (d0 := i_db0 i) in *. set (s0 := mkSt (mkDB d0 None) false false).
     assert (G0 : G s0) by (intros _ E; discriminate).
     assert (Q0 : Q s0) by (intros _; reflexivity).
     destruct (i_external i) eqn:Hext.
     - (* the caller holds a transaction *)
-      simpl in Hc. cbv iota. assert (Hki : k <> ImplicitCommitDDL). { intros E. rewrite E in Hc. simpl in Hc. discriminate. }
+      simpl in Hc. cbv iota. cbn [orb].
+      assert (Hki : k <> ImplicitCommitDDL). { intros E. rewrite E in Hc. simpl in Hc. discriminate. }
       destruct (autobegin_spec s0 G0) as (A1 & A2 & A3 & A4 & A5). set (s1 := sa_autobegin k s0) in *.
       rewrite A4. set (c := mkMcfg (i_tddl i) (i_per_mig i) true false).
       assert (Hb : forall h p, begin_transaction c h p = BtNull) by reflexivity.
       unfold bt_enter. rewrite Hb. rewrite run_migrations_prelude.
       assert (Q1 : Q s1) by (intros E; congruence).
       destruct (prelude_spec s1 A3 Q1) as (P1 & P2 & P3 & P4 & P5 & P6).
-      pose proof (steps_null c (i_steps i) (fun h => Hb h true) Hki (i_fail i) (prelude s1) P3) as S.
-      destruct (run_steps k c (i_steps i) (i_fail i) (prelude s1)) as [s3 r]. destruct S as (S1 & S2 & S3 & S4 & S5 & S6).
-      simpl. split; [exact S1|].
-      assert (Er : r = is_some (fidx (i_steps i) (i_fail i))) by (apply iff_is_some; exact S1).
-      rewrite <- Er. destruct r; simpl.
-      + unfold pC in *. rewrite S2, P1, A2. reflexivity.
-      + unfold pC, pV in *. rewrite (S3 eq_refl), P2, A1. reflexivity.
+      pose proof (steps_null c (i_steps i) (fun h => Hb h true) Hki (prelude s1) P3 P5) as S.
+      destruct (run_steps k c (i_steps i) (prelude s1)) as [s3 r]. destruct S as (S1 & S2 & S3 & S4).
+      assert (Eal : s_al (prelude s1) = false) by (rewrite P6; exact A5).
+      rewrite Eal, P1, P2 in S1. cbn [negb] in S1. unfold pC, pV in *. rewrite A1, A2 in S1. change (view (s_db s0)) with d0 in S1. change (committed (s_db s0)) with d0 in S1.
+      destruct (null_cv true (i_steps i) (pi d0) (pi (set_vt d0))) as [[cc vv] rr]. injection S1 as S1 S1' ->.
+      destruct rr; simpl; congruence.
     - simpl in Hc. cbv iota. cbn [orb]. destruct (i_tddl i && negb (i_per_mig i)) eqn:Hone.
       + (* env.py's begin_transaction() opens the one transaction *)
         simpl in Hc. assert (Hki : k <> ImplicitCommitDDL). { intros E. rewrite E in Hc. simpl in Hc. discriminate. }
@@ -326,18 +325,17 @@ Section Proj.
         unfold bt_enter. change (begin_transaction c (s_al s0) false) with BtProxy. cbv iota.
         destruct (autobegin_spec s0 G0) as (A1 & A2 & A3 & A4 & A5).
         set (s1 := mkSt (s_db (sa_autobegin k s0)) true true).
-        assert (G1 : G s1) by (exact A3).
+        assert (G1 : G s1). { intros Ek _. unfold s1. simpl. apply (A3 Ek A4). }
         assert (Q1 : Q s1) by (intros E; congruence).
         rewrite run_migrations_prelude.
         destruct (prelude_spec s1 G1 Q1) as (P1 & P2 & P3 & P4 & P5 & P6).
-        pose proof (steps_null c (i_steps i) Hb Hki (i_fail i) (prelude s1) P3) as S.
-        destruct (run_steps k c (i_steps i) (i_fail i) (prelude s1)) as [s3 r]. destruct S as (S1 & S2 & S3 & S4 & S5 & S6).
-        simpl. split; [exact S1|].
-        assert (Er : r = is_some (fidx (i_steps i) (i_fail i))) by (apply iff_is_some; exact S1).
-        rewrite <- Er. unfold bt_exit. replace (s_al s3) with true by (rewrite S6, P6; reflexivity).
-        destruct r; simpl.
-        * unfold pC in *. rewrite S2, P1. simpl. exact (f_equal pi A2).
-        * unfold pC, pV in *. rewrite (S3 eq_refl), P2. simpl in A1 |- *. rewrite A1. reflexivity.
+        pose proof (steps_null c (i_steps i) Hb Hki (prelude s1) P3 P5) as S.
+        destruct (run_steps k c (i_steps i) (prelude s1)) as [s3 r]. destruct S as (S1 & S2 & S3 & S4).
+        assert (Eal : s_al (prelude s1) = true) by (rewrite P6; reflexivity).
+        rewrite Eal, P1, P2 in S1. cbn [negb] in S1. unfold pC, pV in *. cbn [s_db s1] in S1. rewrite A1, A2 in S1. change (view (s_db s0)) with d0 in S1. change (committed (s_db s0)) with d0 in S1.
+        destruct (null_cv false (i_steps i) (pi d0) (pi (set_vt d0))) as [[cc vv] rr]. injection S1 as S1 S1' ->.
+        unfold bt_exit. replace (s_al s3) with true by (rewrite S4, Eal; reflexivity).
+        destruct rr; simpl; congruence.
       + (* every migration in its own transaction *)
         change (s_sa s0) with false.
         set (c := mkMcfg (i_tddl i) (i_per_mig i) false false).
@@ -347,16 +345,116 @@ Section Proj.
         { unfold c, begin_transaction. simpl. destruct (i_tddl i), (i_per_mig i); simpl in *; auto; discriminate. }
         unfold bt_enter. change (s_al s0) with false. rewrite Hb0. rewrite run_migrations_prelude.
         destruct (prelude_spec s0 G0 Q0) as (P1 & P2 & P3 & P4 & P5 & P6).
-        pose proof (steps_proxy c (i_steps i) Hb (i_fail i) (prelude s0) P3 P4 P6) as S.
-        destruct (run_steps k c (i_steps i) (i_fail i) (prelude s0)) as [s3 r]. destruct S as (S1 & S2 & S3).
-        simpl. split; [exact S1|]. unfold count_done in S3.
-        destruct (fidx (i_steps i) (i_fail i)) as [j|]; simpl.
-        * destruct j; [destruct S3 as (S3 & _)|destruct S3 as (S3 & _)]; unfold pC, pV in *; rewrite S3; auto.
-          rewrite P2. reflexivity.
-        * destruct (length (i_steps i)); [destruct S3 as (S3 & _)|destruct S3 as (S3 & _)]; unfold pC, pV in *; rewrite S3; auto.
-          rewrite P2. reflexivity.
+        pose proof (steps_proxy c (i_steps i) Hb (prelude s0) P3 P4 P6) as S.
+        destruct (run_steps k c (i_steps i) (prelude s0)) as [s3 r].
+        rewrite P1, P2 in S. unfold pC, pV in *. change (view (s_db s0)) with d0 in S. change (committed (s_db s0)) with d0 in S.
+        destruct (proxy_cv (i_steps i) (pi d0) (pi (set_vt d0))) as [[cc vv] rr]. injection S as S S' ->.
+        simpl. congruence.
   Qed.
 End Proj.
+
+(* ------------------------------------------------------------------ pure facts about the abstract pair semantics *)
+Section Abs.
+  Variable X : Type.
+  Variable f : act -> X -> X.
+  Notation autos_cv := (autos_cv X f).
+  Notation items_cv := (items_cv X f).
+  Notation step_cv := (step_cv X f).
+  Notation null_cv := (null_cv X f).
+  Notation proxy_cv := (proxy_cv X f).
+  Notation body_f := (body_f X f).
+  Notation step_f := (step_f X f).
+  Notation steps_f := (steps_f X f).
+
+  Definition astmts (xs:list aitem) : list stmt := flat_map (fun a => match a with AStmt x => [x] | ARaise => [] end) xs.
+  Definition fold_stmts (l:list stmt) (v:X) : X := fold_left (fun x st => f (AEff (stmt_eff st)) x) l v.
+
+  Lemma autos_cv_spec xs : forall v,
+    snd (autos_cv xs v) = autos_raise xs /\ (autos_raise xs = false -> fst (autos_cv xs v) = fold_stmts (astmts xs) v).
+  Proof. induction xs as [|[x|] xs IH]; intros v; simpl; auto. split; [reflexivity|discriminate]. Qed.
+
+  Lemma items_cv_spec ext items : forall c v,
+    let '(c1, v1, r) := items_cv ext items c v in
+    r = items_raise ext items /\
+    (r = false -> v1 = body_f items v) /\
+    (enters_auto ext items = false -> c1 = c).
+  Proof.
+    induction items as [|[x|xs|] items IH]; intros c v; simpl; auto.
+    - specialize (IH c (f (AEff (stmt_eff x)) v)). destruct (items_cv ext items c _) as [[c1 v1] r]. exact IH.
+    - destruct ext; simpl.
+      + repeat split; auto; discriminate.
+      + destruct (autos_cv_spec xs v) as [A1 A2]. destruct (autos_cv xs v) as [v' rr]. simpl in A1, A2. subst rr.
+        destruct (autos_raise xs) eqn:Ea; simpl.
+        * repeat split; auto; discriminate.
+        * specialize (IH v' v'). destruct (items_cv false items v' v') as [[c1 v1] r]. destruct IH as (I1 & I2 & I3).
+          repeat split; auto; try discriminate. intros Hr. rewrite (I2 Hr), (A2 eq_refl).
+          unfold body_f, body_stmts, fold_stmts. cbn [flat_map item_stmts]. rewrite fold_left_app. reflexivity.
+    - repeat split; auto; discriminate.
+  Qed.
+
+  Lemma step_cv_spec ext sp c v :
+    let '(c1, v1, r) := step_cv ext sp c v in
+    r = step_raises ext sp /\ (r = false -> v1 = step_f sp v) /\ (enters_auto ext (s_body sp) = false -> c1 = c).
+  Proof.
+    unfold step_cv, step_raises. pose proof (items_cv_spec ext (s_body sp) c v) as H.
+    destruct (items_cv ext (s_body sp) c v) as [[c1 v1] r2]. destruct H as (H1 & H2 & H3). subst r2.
+    destruct (items_raise ext (s_body sp)); simpl.
+    - repeat split; auto; discriminate.
+    - repeat split; auto. intros _. unfold step_f. rewrite (H2 eq_refl). reflexivity.
+  Qed.
+
+  Lemma enters_auto_ext items : enters_auto true items = false.
+  Proof. induction items as [|[x|xs|] items IH]; simpl; auto. Qed.
+
+  Definition cnt (ext:bool) (steps:list step) : nat := match fidx ext steps with Some j => j | None => length steps end.
+
+  (* one transaction per migration *)
+  Lemma proxy_cv_spec steps : forall c v,
+    (forall j sp, fidx false steps = Some j -> nth_error steps j = Some sp -> enters_auto false (s_body sp) = false) ->
+    let '(c', _, r) := proxy_cv steps c v in
+    r = is_some (fidx false steps) /\
+    c' = match cnt false steps with O => c | S _ => steps_f (firstn (cnt false steps) steps) v end.
+  Proof.
+    unfold cnt. induction steps as [|sp steps IH]; intros c v Hne; simpl; auto.
+    pose proof (step_cv_spec false sp c v) as S. destruct (step_cv false sp c v) as [[c1 v1] r1].
+    destruct S as (S1 & S2 & S3). subst r1. destruct (step_raises false sp) eqn:Er.
+    - split; auto. apply S3. apply (Hne 0%nat sp); simpl; rewrite ?Er; auto.
+    - assert (Hne' : forall j sp0, fidx false steps = Some j -> nth_error steps j = Some sp0 ->
+                        enters_auto false (s_body sp0) = false).
+      { intros j sp0 Hj Hn. apply (Hne (S j) sp0); simpl; rewrite ?Er, ?Hj; auto. }
+      specialize (IH v1 v1 Hne'). destruct (proxy_cv steps v1 v1) as [[c' v'] r]. destruct IH as (I1 & I2).
+      rewrite (S2 eq_refl) in I2.
+      destruct (fidx false steps) as [j|]; simpl in *; split; auto.
+      + destruct j; simpl; auto.
+      + destruct (length steps) eqn:El; simpl; auto; try (destruct steps; [reflexivity|discriminate]).
+  Qed.
+
+  (* one enclosing transaction *)
+  Lemma null_cv_spec ext steps : forall c v,
+    let '(c', v', r) := null_cv ext steps c v in
+    r = is_some (fidx ext steps) /\
+    (r = false -> v' = steps_f steps v) /\
+    ((ext = true \/ none_enters steps = true) -> c' = c).
+  Proof.
+    induction steps as [|sp steps IH]; intros c v; simpl; auto.
+    pose proof (step_cv_spec ext sp c v) as S. destruct (step_cv ext sp c v) as [[c1 v1] r1].
+    destruct S as (S1 & S2 & S3). subst r1.
+    assert (Hc1 : (ext = true \/ negb (enters_auto false (s_body sp)) = true) -> c1 = c).
+    { intros [->|H]; apply S3; [apply enters_auto_ext|]. destruct ext; [apply enters_auto_ext|].
+      apply negb_true_iff in H; auto. }
+    destruct (step_raises ext sp) eqn:Er.
+    - repeat split; auto; try discriminate. intros [H|H]; apply Hc1; auto.
+      apply andb_true_iff in H as [H _]. auto.
+    - specialize (IH c1 v1). destruct (null_cv ext steps c1 v1) as [[c' v'] r]. destruct IH as (I1 & I2 & I3).
+      rewrite (S2 eq_refl) in I2. repeat split.
+      + destruct (fidx ext steps); auto.
+      + auto.
+      + intros H. rewrite I3, Hc1; auto.
+        * destruct H as [H|H]; auto. apply andb_true_iff in H as [H _]. auto.
+        * destruct H as [H|H]; auto. apply andb_true_iff in H as [_ H].
+          destruct ext; [left; reflexivity|right; rewrite Er in H; exact H].
+  Qed.
+End Abs.
 
 (* ------------------------------------------------------------------ instance 1: the version rows, every behaviour *)
 Definition f_rows (a:act) (x:list N) : list N := match a with AVop v => apply_vop v x | _ => x end.
@@ -365,31 +463,128 @@ Proof. destruct a; reflexivity. Qed.
 Lemma rows_Hddl k : k <> TxDDL -> forall x, (forall e, f_rows (AEff e) x = x) /\ f_rows AVt x = x.
 Proof. intros _ x. split; reflexivity. Qed.
 
-Lemma rows_body body x : body_f _ f_rows body x = x.
-Proof. unfold body_f. induction body; simpl; auto. Qed.
-Lemma rows_step sp x : step_f _ f_rows sp x = ver_rows sp x.
-Proof. unfold step_f. rewrite rows_body. reflexivity. Qed.
-Lemma rows_steps steps : forall x, steps_f _ f_rows steps x = rows_after steps x.
-Proof. unfold steps_f, rows_after. induction steps as [|sp steps IH]; intros x; simpl; auto. rewrite rows_step. apply IH. Qed.
+Lemma rows_autos xs v : autos_cv _ f_rows xs v = (v, autos_raise xs).
+Proof. induction xs as [|[x|] xs IH]; simpl; auto. Qed.
+Lemma rows_items ext items : forall c v,
+  items_cv _ f_rows ext items c v = (if enters_auto ext items then v else c, v, items_raise ext items).
+Proof. induction items as [|[x|xs|] items IH]; intros c v; simpl; auto.
+  destruct ext; simpl; auto. rewrite rows_autos. destruct (autos_raise xs); simpl; auto.
+  rewrite IH. destruct (enters_auto false items); reflexivity. Qed.
+Lemma rows_vops vs x : vops_f _ f_rows vs x = fold_left (fun l v => apply_vop v l) vs x.
+Proof. reflexivity. Qed.
+Lemma rows_step ext sp c v :
+  step_cv _ f_rows ext sp c v =
+  (if enters_auto ext (s_body sp) then v else c, if items_raise ext (s_body sp) then v else ver_rows sp v, step_raises ext sp).
+Proof. unfold step_cv, step_raises. rewrite rows_items. destruct (items_raise ext (s_body sp)); reflexivity. Qed.
 
-Lemma fidx_lt steps : forall fail j, fidx steps fail = Some j -> j < length steps.
-Proof. induction steps as [|sp steps IH]; intros fail j; simpl.
-  - destruct fail as [[[|n] p]|]; discriminate.
-  - destruct fail as [[[|n] p]|]; try discriminate.
-    + destruct (valid_fpos sp p); [|discriminate]. intros [= <-]. lia.
-    + destruct (fidx steps (Some (n, p))) eqn:E; simpl; [|discriminate]. intros [= <-]. apply IH in E. lia. Qed.
+Lemma rows_after_app l1 l2 x : rows_after (l1 ++ l2) x = rows_after l2 (rows_after l1 x).
+Proof. unfold rows_after. apply fold_left_app. Qed.
+Lemma firstn_le_app {A} (l1 l2:list A) a : a <= length l1 -> firstn a (l1 ++ l2) = firstn a l1.
+Proof. intros H. rewrite firstn_app. replace (a - length l1) with 0 by lia. simpl. apply app_nil_r. Qed.
+
+(* one transaction per migration: autocommit sections never change which migrations are recorded *)
+Lemma rows_proxy steps : forall c,
+  let '(c', _, r) := proxy_cv _ f_rows steps c c in
+  r = is_some (fidx false steps) /\ c' = rows_after (firstn (cnt false steps) steps) c.
+Proof.
+  unfold cnt. induction steps as [|sp steps IH]; intros c; simpl; auto.
+  rewrite rows_step. assert (E : (if enters_auto false (s_body sp) then c else c) = c) by (destruct (enters_auto _ _); auto).
+  rewrite E. destruct (step_raises false sp) eqn:Er; simpl; auto.
+  assert (Ei : items_raise false (s_body sp) = false).
+  { unfold step_raises in Er. apply orb_false_iff in Er as [Er _]. exact Er. }
+  rewrite Ei. specialize (IH (ver_rows sp c)). destruct (proxy_cv _ f_rows steps _ _) as [[c' v'] r].
+  destruct IH as (I1 & I2). destruct (fidx false steps); simpl in *; auto.
+Qed.
+
+(* one enclosing transaction held by the caller: nothing is committed before the end *)
+Lemma rows_null_ext steps : forall c v,
+  let '(c', v', r) := null_cv _ f_rows true steps c v in
+  r = is_some (fidx true steps) /\ c' = c /\ (r = false -> v' = rows_after steps v).
+Proof.
+  induction steps as [|sp steps IH]; intros c v; simpl; auto.
+  rewrite rows_step, enters_auto_ext. destruct (step_raises true sp) eqn:Er; simpl.
+  - repeat split; auto; discriminate.
+  - assert (Ei : items_raise true (s_body sp) = false).
+    { unfold step_raises in Er. apply orb_false_iff in Er as [Er _]. exact Er. }
+    rewrite Ei. specialize (IH c (ver_rows sp v)). destruct (null_cv _ f_rows true steps _ _) as [[c' v'] r].
+    destruct IH as (I1 & I2 & I3). destruct (fidx true steps); simpl in *; auto.
+Qed.
+
+(* one enclosing transaction opened by env.py's begin_transaction(): committed up to the last autocommit section *)
+Lemma rows_null steps : forall pre a r0 c v,
+  a <= length pre -> c = rows_after (firstn a pre) r0 -> v = rows_after pre r0 ->
+  let '(c', v', r) := null_cv _ f_rows false steps c v in
+  r = is_some (fidx false steps) /\
+  (r = true -> c' = rows_after (firstn (last_autocommit steps (length pre) a) (pre ++ steps)) r0) /\
+  (r = false -> v' = rows_after (pre ++ steps) r0).
+Proof.
+  induction steps as [|sp steps IH]; intros pre a r0 c v Ha Hc Hv; simpl.
+  - repeat split; auto; try discriminate. intros _. rewrite app_nil_r. auto.
+  - rewrite rows_step.
+    set (a' := if enters_auto false (s_body sp) then length pre else a).
+    assert (Ha' : a' <= length pre) by (unfold a'; destruct (enters_auto _ _); lia).
+    assert (Hc1 : (if enters_auto false (s_body sp) then v else c) = rows_after (firstn a' pre) r0).
+    { unfold a'. destruct (enters_auto _ _); auto. rewrite firstn_all. auto. }
+    rewrite Hc1. destruct (step_raises false sp) eqn:Er; simpl.
+    + repeat split; auto; try discriminate. intros _. rewrite firstn_le_app; auto.
+    + assert (Ei : items_raise false (s_body sp) = false).
+      { unfold step_raises in Er. apply orb_false_iff in Er as [Er _]. exact Er. }
+      rewrite Ei.
+      assert (Hlen : length (pre ++ [sp]) = S (length pre)) by (rewrite app_length; simpl; lia).
+      specialize (IH (pre ++ [sp]) a' r0 (rows_after (firstn a' pre) r0) (ver_rows sp v)).
+      rewrite Hlen in IH. replace ((pre ++ [sp]) ++ steps) with (pre ++ sp :: steps) in IH by (rewrite <- app_assoc; reflexivity).
+      assert (H1 : a' <= S (length pre)) by lia.
+      assert (H2 : rows_after (firstn a' pre) r0 = rows_after (firstn a' (pre ++ [sp])) r0) by (rewrite firstn_le_app; auto).
+      assert (H3 : ver_rows sp v = rows_after (pre ++ [sp]) r0) by (rewrite rows_after_app, <- Hv; reflexivity).
+      specialize (IH H1 H2 H3). destruct (null_cv _ f_rows false steps _ _) as [[c' v'] r].
+      destruct IH as (I1 & I2 & I3). destruct (fidx false steps); simpl in *; auto.
+Qed.
+
+Lemma last_autocommit_le steps : forall idx acc k, acc <= idx -> fidx false steps = Some k ->
+  last_autocommit steps idx acc <= idx + k.
+Proof.
+  induction steps as [|sp steps IH]; intros idx acc k Ha; simpl; [discriminate|].
+  destruct (step_raises false sp).
+  - intros [= <-]. destruct (enters_auto _ _); lia.
+  - destruct (fidx false steps) as [j|] eqn:Ef; simpl; [|discriminate]. intros [= <-].
+    specialize (IH (S idx) (if enters_auto false (s_body sp) then idx else acc) j).
+    assert (H : (if enters_auto false (s_body sp) then idx else acc) <= S idx) by (destruct (enters_auto _ _); lia).
+    specialize (IH H eq_refl). lia.
+Qed.
+
+Lemma fidx_lt ext steps : forall j, fidx ext steps = Some j -> j < length steps.
+Proof. induction steps as [|sp steps IH]; intros j; simpl; [discriminate|].
+  destruct (step_raises ext sp); [intros [= <-]; lia|].
+  destruct (fidx ext steps) eqn:E; simpl; [|discriminate]. intros [= <-]. specialize (IH _ eq_refl). lia. Qed.
+
+Lemma count_le i k : fail_index i = Some k -> committed_count i <= k.
+Proof. unfold committed_count. intros H. rewrite H. destruct (i_external i) eqn:He; [lia|].
+  destruct (i_tddl i && negb (i_per_mig i)); [|lia]. unfold fail_index in H. rewrite He in H.
+  apply (last_autocommit_le _ 0 0 k); auto. Qed.
 
 Lemma rows_thm i : consistent i = true ->
   (o_raised (txn_run i) = true <-> fail_index i <> None) /\
   vrows (o_db (txn_run i)) = rows_after (firstn (committed_count i) (i_steps i)) (vrows (i_db0 i)).
 Proof.
-  intros Hc. destruct (txn_run_proj _ vrows f_rows (i_kind i) rows_Hpi (rows_Hddl _) i eq_refl Hc) as [H1 H2].
-  split; auto. rewrite H2. unfold expected, committed_count. simpl.
-  destruct (one_txn i).
-  - destruct (fail_index i); simpl; auto. rewrite firstn_all, rows_steps. reflexivity.
-  - destruct (fail_index i) as [[|j]|]; simpl; auto.
-    + rewrite rows_steps. reflexivity.
-    + destruct (i_steps i) as [|sp steps]; simpl; auto. rewrite firstn_all. apply (rows_steps (sp :: steps)).
+  intros Hc. pose proof (txn_run_proj _ vrows f_rows (i_kind i) rows_Hpi (rows_Hddl _) i eq_refl Hc) as H.
+  unfold abs_run, committed_count, fail_index, one_txn in *. simpl in H.
+  destruct (i_external i) eqn:He; simpl in H.
+  - pose proof (rows_null_ext (i_steps i) (vrows (i_db0 i)) (vrows (i_db0 i))) as R.
+    destruct (null_cv _ f_rows true (i_steps i) _ _) as [[c v] r]. destruct R as (R1 & R2 & R3).
+    injection H as H1 H2. rewrite H1, H2, R1. split; [apply is_some_iff|].
+    destruct (fidx true (i_steps i)); simpl in *; subst; auto. rewrite firstn_all. auto.
+  - destruct (i_tddl i && negb (i_per_mig i)); simpl in H.
+    + pose proof (rows_null (i_steps i) [] 0 (vrows (i_db0 i)) (vrows (i_db0 i)) (vrows (i_db0 i))
+                    (Nat.le_refl _) eq_refl eq_refl) as R.
+      destruct (null_cv _ f_rows false (i_steps i) _ _) as [[c v] r]. destruct R as (R1 & R2 & R3).
+      injection H as H1 H2. rewrite H1, H2. clear H1 H2. split; [rewrite R1; apply is_some_iff|].
+      simpl in R2, R3. destruct (fidx false (i_steps i)); simpl in R1; rewrite R1 in *; simpl.
+      * apply R2; auto.
+      * rewrite firstn_all. apply R3; auto.
+    + pose proof (rows_proxy (i_steps i) (vrows (i_db0 i))) as R.
+      destruct (proxy_cv _ f_rows (i_steps i) _ _) as [[c v] r]. destruct R as (R1 & R2).
+      injection H as H1 H2. rewrite H1, H2, R1. split; [apply is_some_iff|].
+      rewrite R2. unfold cnt. destruct (fidx false (i_steps i)); reflexivity.
 Qed.
 
 (* ------------------------------------------------------------------ instance 2: the whole state, real transactional DDL *)
@@ -397,10 +592,14 @@ Lemma tx_Hpi a d : id (apply_act a d) = apply_act a (id d). Proof. reflexivity. 
 Lemma tx_Hddl : TxDDL <> TxDDL -> forall x:dbstate, (forall e, apply_act (AEff e) x = x) /\ apply_act AVt x = x.
 Proof. intros H; contradiction H; reflexivity. Qed.
 
-Lemma tx_steps steps x : steps_f _ apply_act steps x = state_after steps x.
-Proof. reflexivity. Qed.
+Lemma consistent_tx i : i_kind i = TxDDL -> consistent i = true.
+Proof. intros Hk. unfold consistent. rewrite Hk. simpl. rewrite andb_false_r. reflexivity. Qed.
 
-Lemma tx_thm i : i_kind i = TxDDL ->
+Lemma nth_fidx ext steps : forall j, fidx ext steps = Some j -> exists sp, nth_error steps j = Some sp.
+Proof. intros j H. apply fidx_lt in H. destruct (nth_error steps j) eqn:E; eauto.
+  apply nth_error_None in E. lia. Qed.
+
+Lemma tx_thm i : i_kind i = TxDDL -> no_partial_commit i = true ->
   o_db (txn_run i) =
     if one_txn i
     then (if is_some (fail_index i) then i_db0 i else state_after (i_steps i) (with_version_table (i_db0 i)))
@@ -409,9 +608,28 @@ Lemma tx_thm i : i_kind i = TxDDL ->
          | S _ => state_after (firstn (committed_count i) (i_steps i)) (with_version_table (i_db0 i))
          end.
 Proof.
-  intros Hk. assert (Hc : consistent i = true).
-  { unfold consistent. rewrite Hk. simpl. rewrite andb_false_r. reflexivity. }
-  destruct (txn_run_proj _ id apply_act TxDDL tx_Hpi tx_Hddl i Hk Hc) as [_ H]. exact H.
+  intros Hk Hn. pose proof (txn_run_proj _ id apply_act TxDDL tx_Hpi tx_Hddl i Hk (consistent_tx i Hk)) as H.
+  unfold abs_run, committed_count, no_partial_commit, fail_index, one_txn in *. unfold id in H.
+  destruct (i_external i) eqn:He; simpl in H |- *.
+  - pose proof (null_cv_spec _ apply_act true (i_steps i) (i_db0 i) (set_vt (i_db0 i))) as R.
+    destruct (null_cv _ apply_act true (i_steps i) _ _) as [[c v] r]. destruct R as (R1 & R2 & R3).
+    injection H as H1 H2. rewrite H1. clear H1 H2. rewrite R1 in *.
+    destruct (fidx true (i_steps i)); simpl in *.
+    + apply R3; auto.
+    + apply R2; auto.
+  - destruct (i_tddl i && negb (i_per_mig i)); simpl in H |- *.
+    + pose proof (null_cv_spec _ apply_act false (i_steps i) (i_db0 i) (set_vt (i_db0 i))) as R.
+      destruct (null_cv _ apply_act false (i_steps i) _ _) as [[c v] r]. destruct R as (R1 & R2 & R3).
+      injection H as H1 H2. rewrite H1. clear H1 H2. rewrite R1 in *.
+      destruct (fidx false (i_steps i)); simpl in *.
+      * apply R3; auto.
+      * apply R2; auto.
+    + assert (Hne : forall j sp, fidx false (i_steps i) = Some j -> nth_error (i_steps i) j = Some sp ->
+                       enters_auto false (s_body sp) = false).
+      { intros j sp Hj Hs. rewrite Hj, Hs in Hn. apply negb_true_iff in Hn. exact Hn. }
+      pose proof (proxy_cv_spec _ apply_act (i_steps i) (i_db0 i) (set_vt (i_db0 i)) Hne) as R.
+      destruct (proxy_cv _ apply_act (i_steps i) _ _) as [[c v] r]. destruct R as (R1 & R2).
+      injection H as H1 H2. rewrite H1, R2. unfold cnt. destruct (fidx false (i_steps i)); reflexivity.
 Qed.
 
 (* projections of state_after *)
@@ -419,10 +637,10 @@ Lemma effs_fold_vops vs d : effs (fold_left (fun d v => apply_act (AVop v) d) vs
 Proof. revert d; induction vs; intros; simpl; auto. rewrite IHvs. reflexivity. Qed.
 Lemma vt_fold_vops vs d : vt (fold_left (fun d v => apply_act (AVop v) d) vs d) = vt d.
 Proof. revert d; induction vs; intros; simpl; auto. rewrite IHvs. reflexivity. Qed.
-Lemma effs_fold_body body d :
+Lemma effs_fold_body (body:list stmt) d :
   effs (fold_left (fun d x => apply_act (AEff (stmt_eff x)) d) body d) = fold_left (fun l x => apply_eff (stmt_eff x) l) body (effs d).
 Proof. revert d; induction body; intros; simpl; auto. rewrite IHbody. reflexivity. Qed.
-Lemma vt_fold_body body d : vt (fold_left (fun d x => apply_act (AEff (stmt_eff x)) d) body d) = vt d.
+Lemma vt_fold_body (body:list stmt) d : vt (fold_left (fun d x => apply_act (AEff (stmt_eff x)) d) body d) = vt d.
 Proof. revert d; induction body; intros; simpl; auto. rewrite IHbody. reflexivity. Qed.
 Lemma effs_state_after steps : forall d, effs (state_after steps d) = effs_after steps (effs d).
 Proof. unfold state_after, effs_after. induction steps as [|sp steps IH]; intros d; simpl; auto.
@@ -434,41 +652,49 @@ Proof. unfold state_after. induction steps as [|sp steps IH]; intros d; simpl; a
 (* ------------------------------------------------------------------ main theorem and decider soundness *)
 Theorem C04_main_thm i : consistent i = true -> C04_holds i (txn_run i).
 Proof.
-  intros Hc. destruct (rows_thm i Hc) as [R1 R2]. unfold C04_holds. split; [exact R1|]. split.
+  intros Hc. destruct (rows_thm i Hc) as [R1 R2]. unfold C04_holds. split; [exact R1|]. split; [apply count_le|]. split.
   - intros x. rewrite R2. tauto.
-  - intros Hk. rewrite (tx_thm i Hk). unfold committed_count.
-    destruct (one_txn i).
-    + destruct (fail_index i) as [j|]; simpl.
-      * split; [tauto|]. intros _. destruct (vt (i_db0 i)); reflexivity.
-      * rewrite firstn_all, effs_state_after, vt_state_after. simpl. split; [tauto|].
-        intros Hn. destruct (i_steps i); [contradiction Hn; auto|]. simpl. destruct (vt (i_db0 i)); reflexivity.
-    + destruct (fail_index i) as [[|j]|]; simpl.
+  - intros Hk Hn. rewrite (tx_thm i Hk Hn).
+    destruct (one_txn i) eqn:Hone.
+    + destruct (fail_index i) as [j|] eqn:Hf; simpl.
+      * assert (Hz : committed_count i = 0).
+        { unfold committed_count, no_partial_commit, one_txn in *. rewrite Hf in *.
+          destruct (i_external i) eqn:He; auto. simpl in Hone. rewrite Hone in *.
+          unfold fail_index in Hf. rewrite He in Hf. clear - Hn Hf.
+          assert (G : forall steps idx acc k, none_enters steps = true -> fidx false steps = Some k ->
+                        last_autocommit steps idx acc = acc).
+          { induction steps as [|sp steps IH]; intros idx acc k; simpl; [discriminate|].
+            intros H. apply andb_true_iff in H as [H1 H2]. apply negb_true_iff in H1. rewrite H1.
+            destruct (step_raises false sp); auto. simpl in H2.
+            destruct (fidx false steps) eqn:E; simpl; [|discriminate]. intros _. eapply IH; eauto. }
+          eapply G; eauto. }
+        rewrite Hz. simpl. split; [tauto|]. intros _. destruct (vt (i_db0 i)); reflexivity.
+      * unfold committed_count. rewrite Hf. rewrite firstn_all, effs_state_after, vt_state_after. simpl. split; [tauto|].
+        intros Hne. destruct (i_steps i); [contradiction Hne; auto|]. simpl. destruct (vt (i_db0 i)); reflexivity.
+    + destruct (committed_count i) eqn:Ec; simpl.
       * split; [tauto|]. intros _. destruct (vt (i_db0 i)); reflexivity.
       * rewrite effs_state_after, vt_state_after. simpl. split; [tauto|]. intros _. destruct (vt (i_db0 i)); reflexivity.
-      * rewrite !firstn_all. destruct (length (i_steps i)) eqn:El.
-        -- destruct (i_steps i); [|discriminate]. simpl. split; [tauto|]. intros Hn. contradiction Hn; auto.
-        -- rewrite effs_state_after, vt_state_after. simpl. split; [tauto|].
-           intros _. destruct (vt (i_db0 i)); reflexivity.
 Qed.
 
 Lemma kind_eqb_eq a b : kind_eqb a b = true <-> a = b.
 Proof. destruct a, b; simpl; split; congruence. Qed.
+Lemma is_some_iff' {A} (o:option A) : is_some o = true <-> o <> None.
+Proof. destruct o; simpl; split; congruence. Qed.
 
 Theorem check_C04_sound i o : check_C04 i o = true -> C04_holds i o.
 Proof.
   unfold check_C04, C04_holds. intros H.
-  apply andb_true_iff in H as [H H3]. apply andb_true_iff in H as [H1 H2].
-  split; [|split].
-  - apply Bool.eqb_prop in H1. rewrite H1. apply is_some_iff.
+  apply andb_true_iff in H as [H H4]. apply andb_true_iff in H as [H H3]. apply andb_true_iff in H as [H1 H2].
+  split; [|split; [|split]].
+  - apply Bool.eqb_prop in H1. rewrite H1. apply is_some_iff'.
+  - intros k Hk. rewrite Hk in H2. apply Nat.leb_le in H2. exact H2.
   - apply seteqN_spec; auto.
-  - intros Hk. rewrite Hk in H3. simpl in H3. apply andb_true_iff in H3 as [H3 H4]. split.
+  - intros Hk Hn. rewrite Hk, Hn in H4. simpl in H4. apply andb_true_iff in H4 as [H4 H5]. split.
     + apply seteqN_spec; auto.
-    + intros Hn. destruct (i_steps i); [contradiction Hn; auto|]. apply Bool.eqb_prop in H4. exact H4.
+    + intros Hne. destruct (i_steps i); [contradiction Hne; auto|]. apply Bool.eqb_prop in H5. exact H5.
 Qed.
 
 (* ------------------------------------------------------------------ the clauses of the property, one by one *)
-Lemma consistent_tx i : i_kind i = TxDDL -> consistent i = true.
-Proof. intros Hk. unfold consistent. rewrite Hk. simpl. rewrite andb_false_r. reflexivity. Qed.
 Lemma consistent_per_step i : one_txn i = false -> consistent i = true.
 Proof. intros H. unfold consistent. rewrite H. reflexivity. Qed.
 
@@ -481,26 +707,30 @@ Lemma failed_not_recorded_thm i j : consistent i = true -> fail_index i = Some j
   exists c, c <= j /\ j < length (i_steps i) /\
     vrows (o_db (txn_run i)) = rows_after (firstn c (i_steps i)) (vrows (i_db0 i)).
 Proof. intros Hc Hf. destruct (rows_thm i Hc) as [R1 R2]. split. { apply R1. rewrite Hf. discriminate. }
-  exists (committed_count i). unfold committed_count in *. rewrite Hf in *. unfold fail_index in Hf. apply fidx_lt in Hf.
-  destruct (one_txn i); repeat split; auto; lia. Qed.
+  exists (committed_count i). split; [apply count_le; auto|]. split; auto. unfold fail_index in Hf. apply fidx_lt in Hf. auto. Qed.
 
-Lemma all_or_nothing_thm i : i_kind i = TxDDL -> one_txn i = true -> fail_index i <> None ->
+Lemma all_or_nothing_thm i : i_kind i = TxDDL -> one_txn i = true -> fail_index i <> None -> no_partial_commit i = true ->
   o_db (txn_run i) = i_db0 i.
-Proof. intros Hk H1 Hf. rewrite (tx_thm i Hk), H1. destruct (fail_index i); [reflexivity|contradiction Hf; auto]. Qed.
+Proof. intros Hk H1 Hf Hn. rewrite (tx_thm i Hk Hn), H1. destruct (fail_index i); [reflexivity|contradiction Hf; auto]. Qed.
 
-Lemma per_migration_thm i j : i_kind i = TxDDL -> one_txn i = false -> fail_index i = Some j ->
+Lemma per_migration_thm i j : i_kind i = TxDDL -> one_txn i = false -> fail_index i = Some j -> no_partial_commit i = true ->
   o_db (txn_run i) = match j with
                      | O => i_db0 i
                      | S _ => state_after (firstn j (i_steps i)) (with_version_table (i_db0 i))
                      end.
-Proof. intros Hk H1 Hf. rewrite (tx_thm i Hk), H1. unfold committed_count. rewrite Hf, H1. reflexivity. Qed.
+Proof. intros Hk H1 Hf Hn. rewrite (tx_thm i Hk Hn), H1. unfold committed_count. rewrite Hf.
+  unfold one_txn in H1. apply orb_false_iff in H1 as [-> ->]. reflexivity. Qed.
 
 Lemma nontransactional_thm i j : one_txn i = false -> fail_index i = Some j ->
   vrows (o_db (txn_run i)) = rows_after (firstn j (i_steps i)) (vrows (i_db0 i)).
-Proof. intros H1 Hf. rewrite (version_rows_thm i (consistent_per_step i H1)). unfold committed_count. rewrite Hf, H1. reflexivity. Qed.
+Proof. intros H1 Hf. rewrite (version_rows_thm i (consistent_per_step i H1)). unfold committed_count. rewrite Hf.
+  unfold one_txn in H1. apply orb_false_iff in H1 as [-> ->]. reflexivity. Qed.
 
 Lemma success_thm i : consistent i = true -> fail_index i = None ->
   o_raised (txn_run i) = false /\ vrows (o_db (txn_run i)) = rows_after (i_steps i) (vrows (i_db0 i)).
 Proof. intros Hc Hf. destruct (rows_thm i Hc) as [R1 R2]. split.
   - destruct (o_raised (txn_run i)); auto. exfalso. apply (proj1 R1 eq_refl). exact Hf.
   - rewrite R2. unfold committed_count. rewrite Hf, firstn_all. reflexivity. Qed.
+
+Lemma exc_kind_thm k t p e st d x y : txn_run (mkIn k t p e st d x) = txn_run (mkIn k t p e st d y).
+Proof. reflexivity. Qed.
